@@ -537,6 +537,14 @@ func (d *Decoder) LoadParityData() error {
 				return nil, err
 			}
 
+			if parityFile.mainPacket == nil {
+				// The recovery packets carry the set
+				// ID themselves, so a volume without
+				// its own copy of the main packet is
+				// still usable.
+				return &parityFile, nil
+			}
+
 			if d.sliceByteCount != parityFile.mainPacket.sliceByteCount {
 				return nil, errors.New("slice byte count mismatch")
 			}
